@@ -79,10 +79,20 @@ Theorem C02_cardinality_bound :
     | CardNone => n' = n
     | CardMax m => m = (-1)%Z /\ n' = n \/ (n' = n + 1 /\ n' <= m)%Z
     | CardExact m => (n' = n + 1 /\ n' <= m)%Z
-    | CardRange _ hi => hi = (-1)%Z /\ n' = n \/ (n' = n + 1 /\ n' <= hi)%Z
+    | CardRange _ hi => (n' = n + 1 /\ (hi = -1 \/ n' <= hi))%Z
     end.
 Proof. exact card_got_bound. Qed.
 Print Assumptions C02_cardinality_bound.
+
+(** The pinned tree did not count the values of a cardinality range with an
+    unlimited maximum, so its minimum was never enforced (found on the
+    unchanged tree, repaired). *)
+Theorem C02_pinned_range_minimum_refuted :
+  (do n1 <- card_got_pinned (CardRange 2 (-1)) 0; card_end (CardRange 2 (-1)) n1) = Ok tt /\
+  (do n1 <- card_got (CardRange 2 (-1)) 0; card_end (CardRange 2 (-1)) n1) = Err ERuntime /\
+  (do n1 <- card_got (CardRange 2 (-1)) 0; do n2 <- card_got (CardRange 2 (-1)) n1; card_end (CardRange 2 (-1)) n2) = Ok tt.
+Proof. exact pinned_range_minimum_refuted. Qed.
+Print Assumptions C02_pinned_range_minimum_refuted.
 
 (** An argument excluded by an argument used earlier is refused in every
     spelling (repaired notification: the argument's own key is compared). *)
